@@ -115,6 +115,9 @@ class FakeTRX(Transceiver):
 	RSSI_NOISE_DEFAULT = -110
 	CI_NOISE_DEFAULT = -30
 
+	# Upper limit for the artificial TRXC response delay
+	TRXC_DELAY_MAX_MS = 60 * 1000
+
 	def __init__(self, *trx_args, **trx_kwargs):
 		Transceiver.__init__(self, *trx_args, **trx_kwargs)
 
@@ -390,7 +393,12 @@ class FakeTRX(Transceiver):
 		elif self.ctrl_if.verify_cmd(request, "FAKE_TRXC_DELAY", 1):
 			log.debug("(%s) Recv FAKE_TRXC_DELAY cmd", self)
 
-			self.ctrl_if.rsp_delay_ms = int(request[1])
+			delay_ms = int(request[1])
+			if delay_ms < 0 or delay_ms > self.TRXC_DELAY_MAX_MS:
+				log.error("(%s) FAKE_TRXC_DELAY is out of range" % self)
+				return -1
+
+			self.ctrl_if.rsp_delay_ms = delay_ms
 			log.info("(%s) Artificial TRXC delay set to %d",
 				 self, self.ctrl_if.rsp_delay_ms)
 
